@@ -1021,7 +1021,9 @@ def array(obj, dtype=None, copy=True, ndmin=0):
         _flatten_into(obj, flat)
         if dt is None:
             if not flat:
-                dt = 'float'
+                # numpy: an empty array built from (nested sequences of) arrays keeps their dtype; from empty lists float
+                sub = _first_array(obj)
+                dt = sub.dt if sub is not None else 'float'
             else:
                 dt = 'bool'
                 for v in flat:
@@ -1034,6 +1036,17 @@ def array(obj, dtype=None, copy=True, ndmin=0):
     while r.ndim < ndmin:
         r = r.reshape((1,) + r.shape)
     return r
+
+
+def _first_array(obj):
+    if isinstance(obj, ndarray):
+        return obj
+    if isinstance(obj, (list, tuple)):
+        for y in obj:
+            r = _first_array(y)
+            if r is not None:
+                return r
+    return None
 
 
 def asarray(obj, dtype=None):
@@ -1551,6 +1564,24 @@ def fill_diagonal(a, val, wrap=False):
     n = builtins.min(a.shape)
     for i in range(n):
         a[i, i] = val
+
+
+def ix_(*seqs):
+    """open mesh from index sequences: ix_(r, c) -> (r[:, None], c[None, :])"""
+    out = []
+    n = len(seqs)
+    for k, sq in enumerate(seqs):
+        a = asarray(list(sq) if not isinstance(sq, ndarray) else sq)
+        if a.size == 0:
+            a = ndarray._new([], (0,), 'int')
+        if a.ndim != 1:
+            raise ValueError("Cross index must be 1 dimensional")
+        if a.dt == 'bool':
+            a = where(a)[0]
+        shape = [1] * n
+        shape[k] = a.shape[0]
+        out.append(a.reshape(tuple(shape)))
+    return tuple(out)
 
 
 def unravel_index(i, shape):
